@@ -5,5 +5,14 @@ import "github.com/blugelabs/bluge/index/mergeplan"
 func armOSFault(t *DirTrace, f string) {}
 func disarmOSFault(t *DirTrace)        {}
 
-func (r *Run) installPlanMonitors(o *mergeplan.Options) {}
+// installPlanMonitors wraps the planner's option hooks. The CalcBudget
+// wrapper is also a gate: the merger parks there after it read the root and
+// before it allocates a segment id, so id allocation by the persister and the
+// merger can never fall into one window.
+func (r *Run) installPlanMonitors(o *mergeplan.Options) {
+	o.CalcBudget = func(totalSize int64, firstTierSize int64, oo *mergeplan.Options) int {
+		r.s.Gate("plan.calcBudget", "")
+		return mergeplan.CalcBudget(totalSize, firstTierSize, oo)
+	}
+}
 func (r *Run) dirInvariants(evs []*Event)              {}
